@@ -335,6 +335,29 @@ def run(prog, rep, tier):
         rep.ob('R20.5', ok, 'R20.5|%s|extract-via-caller-writers' % exi.nkey, msg, exi.loc())
 
 
+    # ---------------- R20.6 no write is parked in a buffer when the status is computed
+    nbuf = 0
+    for body in prog.crates['mla-bindings-c'].bodies:
+        if body.kind == 'Closure':
+            continue
+        mk = [b for b in body.calls() if b.term.cmethod in ('new', 'with_capacity') and cnorm(b.term).rsplit('::', 1)[0].rsplit('::', 1)[-1] in ('BufWriter', 'LineWriter')]
+        if not mk:
+            continue
+        succ = success_blocks(body)
+        fl = [b.idx for b in body.calls() if b.term.cmethod in ('flush', 'into_inner', 'into_parts') and any(x in cnorm(b.term) + b.term.callee.get('self_ty', '') for x in ('BufWriter', 'LineWriter'))]
+        for c in mk:
+            nbuf += 1
+            rep.fn(body)
+            r = body.reachable(c.term.target, removed_blocks=fl) if c.term.target is not None else set()
+            bad = [bb for bb, _ in succ if bb in r]
+            rep.ob('R20.6', not bad, 'R20.6|%s|%s|flushed-before-success' % (body.nkey, cnorm(c.term).rsplit('::', 1)[0].rsplit('::', 1)[-1]),
+                   'the buffering writer is flushed (result examined by R20.3) on every path to Success' if not bad else
+                   'a buffering writer is placed in front of a caller-supplied callback and Success can be returned without flushing it: the bytes still buffered are '
+                   'written when the buffer is dropped, where a failure reported by the write callback is discarded', body.loc(c.idx))
+    if nbuf == 0:
+        rep.ob('R20.6', True, 'R20.6|mla-bindings-c|no-buffering-adapter', 'no BufWriter / LineWriter is constructed in the C interface: every write reaches the callback before the status is computed', '-')
+
+
 def ptr_root(body, local):
     """parameter local a pointer local is a copy/cast of, else 9999"""
     seen = set()
